@@ -21,6 +21,19 @@ theorem c19_flag (flag s : String) :
   unfold withFlag
   split <;> simp
 
+/-- **C19 (complex observables print both parts "in this way").**  The plain string form and the formatted form of a complex
+    observable join real and imaginary part by the same rule - for EVERY pair of part strings: exactly one sign character stands
+    between them, the imaginary part's own '-' or else a '+'.  (Before fix 8d3fccf `str` decided from `value >= 0`, which for
+    the value -0.0 produced "+-0.00(..)".) -/
+theorem c19_cobs_str_is_format (re im : String) : cobsStr re im = cobsFormat re im := by
+  unfold cobsStr cobsFormat withFlag
+  by_cases h : im.startsWith "-" = true
+  · simp [h]
+  · simp [h, String.append_assoc]
+
+/-- the witness of the repaired defect: a negative-zero imaginary part -/
+theorem c19_cobs_negative_zero : cobsStr "1.00(10)" "-0.00(22)" = "(1.00(10)-0.00(22)j)" := by decide +kernel
+
 /-- non-vacuity / regression examples decided by the kernel: carry across a power of ten
     (0.0996 at two digits prints 100 units of the third decimal), tie to even, negative zero -/
 theorem c19_examples :
